@@ -254,6 +254,7 @@ class Fn:
         self._facts = None
         self._defs = None
         self._reach = {}
+        self._thread_value_conditions()
         # a switch over an enumeration whose case labels name every enumerator has no other way out: the edge to
         # the code after the switch (no `default:`) is removed
         enums = getattr(prog, 'facts', {}).get('enums', {}) if prog is not None else {}
@@ -322,6 +323,62 @@ class Fn:
                     del self.blocks[bid]
             for bid in list(self.preds):
                 self.preds[bid] = [p for p in self.preds[bid] if p in self.blocks]
+
+    def _thread_value_conditions(self):
+        """`if (a && b)` whose operands need cleanups (string / iterator temporaries) is compiled by clang as a VALUE:
+        the short-circuit edges and the block that evaluates the last operand meet in an empty block that branches on
+        the whole expression.  That is the same program as the control-flow form, and is rewritten into it: every
+        short-circuit edge goes straight to the outcome it decides, the last operand's block branches on that operand."""
+        for _ in range(50):
+            changed = False
+            for bid in sorted(self.blocks, reverse=True):
+                b = self.blocks[bid]
+                t = b.get('term')
+                if not t or t.get('kind') != 'if' or len(b['succ']) != 2 or b['ev'] or None in b['succ']:
+                    continue
+                c = t.get('cond')
+                while isinstance(c, dict) and c.get('k') in ('tobool', 'paren'):
+                    c = c['e']
+                if not (isinstance(c, dict) and c.get('k') == 'bin' and c.get('op') in ('&&', '||')) or c.get('val'):
+                    continue
+                op = c['op']
+                short = 0 if op == '||' else 1
+                kind = 'lor' if op == '||' else 'land'
+                preds = list(dict.fromkeys(self.preds.get(bid, [])))
+                shorts = [p for p in preds if (self.blocks[p].get('term') or {}).get('kind') == kind and
+                          len(self.blocks[p]['succ']) == 2 and self.blocks[p]['succ'][short] == bid and
+                          self.blocks[p]['succ'][1 - short] != bid]
+                others = [p for p in preds if p not in shorts]
+                parts = []
+                st = [c]
+                while st:
+                    x = st.pop()
+                    x0 = x
+                    while isinstance(x0, dict) and x0.get('k') in ('tobool', 'paren'):
+                        x0 = x0['e']
+                    if isinstance(x0, dict) and x0.get('k') == 'bin' and x0.get('op') == op and not x0.get('val'):
+                        st += [x0['r'], x0['l']]
+                    else:
+                        parts.append(x)
+                if not shorts or len(others) != 1 or len(shorts) != len(parts) - 1 or bid == self.entry:
+                    continue
+                r = self.blocks[others[0]]
+                if r.get('term') or [x for x in r['succ'] if x is not None] != [bid] or r.get('noreturn'):
+                    continue
+                for p in shorts:
+                    self.blocks[p]['succ'][short] = b['succ'][short]
+                r['term'] = dict(t, cond=parts[-1])
+                r['succ'] = list(b['succ'])
+                b['succ'] = []
+                changed = True
+                self.preds = collections.defaultdict(list)
+                for bb in self.blocks.values():
+                    for s in bb['succ']:
+                        if s is not None:
+                            self.preds[s].append(bb['id'])
+                break
+            if not changed:
+                break
 
     def __repr__(self):
         return '<Fn %s>' % self.name
@@ -917,6 +974,20 @@ def _norm_cond_raw(prog, d, depth=0):
                 continue
             if af is True and at is None:
                 d = {'k': 'bin', 'op': '||', 'l': nc, 'r': d['t'], 'tk': 'bool'}
+                continue
+        if k == 'call' and (d.get('name') or '').startswith(('std::unique_ptr<', 'std::shared_ptr<')) and not d.get('args') and \
+                d.get('recv') is not None and (d['name'].endswith('::operator bool') or d['name'].endswith('::get')):
+            d = d['recv']           # `if (p)`, `if (p.get())`: the truth of a smart pointer is that of the pointer it holds
+            continue
+        if k == 'call' and basename(d.get('name') or '').startswith(('operator==', 'operator!=')) and \
+                len((d.get('args') or [])) + (1 if d.get('recv') is not None else 0) == 2:
+            ops = ([d['recv']] if d.get('recv') is not None else []) + list(d.get('args') or [])
+            nul = [i for i, x in enumerate(ops) if isinstance(strip(x), dict) and strip(x).get('k') in ('null', 'nullptr')]
+            oth = [x for i, x in enumerate(ops) if i not in nul]
+            if len(nul) == 1 and any(t in (strip(oth[0]) or {}).get('ty', '') + dstr(d.get('name') or '') for t in ('unique_ptr', 'shared_ptr')):
+                if basename(d['name']).startswith('operator=='):
+                    pol = not pol
+                d = oth[0]          # `p != nullptr` / `p == nullptr` on a smart pointer
                 continue
         if k == 'call' and (d.get('op') == '!=' or basename(d.get('name') or '').startswith('operator!=')) and \
                 len((d.get('args') or [])) + (1 if d.get('recv') is not None else 0) == 2:
